@@ -6,6 +6,7 @@ CONSTANTS
   Sizes = {12, 60, 110}
   KSz = 5
   NKeys = 4
+  BigKeys = {4}
   Wraps = {0, 1}
   Kinds = {"A", "M", "C"}
   Persist = TRUE
